@@ -57,6 +57,8 @@ theorem JRel.fail {s : Slot} {c : ErrCode} {m : String} :
 theorem JRel.fail' {s : Slot} {c : ErrCode} {m : String} :
     JRel (.error (.iae m)) (.ok ((0.0 : ℝ), s.withErr ⟨c, m⟩)) s := Or.inr ⟨⟨c, m⟩, by norm_num, rfl, rfl⟩
 
+theorem JRel.fail_e {s : Slot} {e : Err} : JRel (.error (.iae e.msg)) (.ok ((0 : ℝ), s.withErr e)) s := Or.inr ⟨e, rfl, rfl, rfl⟩
+
 theorem JRel.nf {a b : String} {s : Slot} : JRel (.error (.nf a)) (.error (.nf b)) s := ⟨a, rfl⟩
 
 theorem JRel.ub {j : JM ℝ} {b : String} {s : Slot} : JRel j (.error (.ub b)) s := trivial
